@@ -675,3 +675,21 @@ def extract_test_pages():
 
 def impl_test_pages(case, scratch):
     return {"outcome": "ok", "pages": extract_test_pages()}
+
+
+# ---------------------------------------------------------------- C03
+def impl_parse_attrs(case, scratch):
+    from wikitextprocessor import parser as P
+    outs = []
+    for s in case["strings"]:
+        n = P.WikiNode(P.NodeKind.HTML, 0)
+        P.parse_attrs(n, s)
+        outs.append([[k, v] for k, v in n.attrs.items()])
+    return {"outcome": "ok", "outs": outs}
+
+
+def impl_paired_tags(case, scratch):
+    from wikitextprocessor.wikihtml import ALLOWED_HTML_TAGS
+    return {"outcome": "ok", "tags": sorted(k for k, v in ALLOWED_HTML_TAGS.items() if not v.get("no-end-tag")),
+            "all": {k: {kk: (sorted(vv) if isinstance(vv, (set, list, tuple)) else vv) for kk, vv in v.items()}
+                    for k, v in ALLOWED_HTML_TAGS.items()}}
